@@ -3,6 +3,7 @@ package schema
 import (
 	"encoding/json"
 	"fmt"
+	"reflect"
 	"sort"
 	"strings"
 
@@ -30,12 +31,14 @@ type HeapEntry struct {
 	HasType bool     `json:"hasType"`
 	HasLA   bool     `json:"hasListAttr"`
 	HasDir  bool     `json:"hasDir"`
+	Extra   int      `json:"extra"` // identity of the Extra map (0 = nil)
 }
 
 // Heap dumps every Entry reachable from the module roots, following every
 // pointer (Dir, RPC.Input/Output), with ids in order of first visit.
 func Heap(ms *yang.Modules, names []string) (roots map[string]int, entries []HeapEntry, byID []*yang.Entry) {
 	ids := map[*yang.Entry]int{}
+	extraIDs := map[uintptr]int{}
 	roots = map[string]int{}
 	var visit func(e *yang.Entry) int
 	visit = func(e *yang.Entry) int {
@@ -51,6 +54,13 @@ func Heap(ms *yang.Modules, names []string) (roots map[string]int, entries []Hea
 		byID = append(byID, e)
 		h := HeapEntry{ID: id, Name: e.Name, Kind: kindOf(e), NErrs: len(e.Errors), NAug: len(e.Augments),
 			HasType: e.Type != nil, HasLA: e.ListAttr != nil, HasDir: e.Dir != nil, Dir: [][2]any{}}
+		if e.Extra != nil {
+			ptr := reflect.ValueOf(e.Extra).Pointer()
+			if _, ok := extraIDs[ptr]; !ok {
+				extraIDs[ptr] = len(extraIDs) + 1
+			}
+			h.Extra = extraIDs[ptr]
+		}
 		var ks []string
 		for k := range e.Dir {
 			ks = append(ks, k)
@@ -154,7 +164,7 @@ func focusOf(prop string) map[string]bool {
 	for _, k := range map[string][]string{
 		"C04": {"heap", "errs"},
 		"C05": {"determinism"},
-		"C06": {"struct", "attrs", "ns", "errs"},
+		"C06": {"struct", "attrs", "ns", "errs", "heap"},
 		"C07": {"struct", "ns", "errs"},
 		"C08": {"struct", "attrs", "errs", "frame"},
 		"C12": {"ro", "ns", "imod"},
@@ -299,78 +309,118 @@ func judge(c *Case) *core.Verdict {
 	return v
 }
 
-// findChecks: the absolute prefixed path of every node of module a's tree, from
-// the root of a, from the root of every module that imports a, and from a deep
-// node; the relative path from a deep node; and each absolute path with one
-// absent step appended or substituted.
+// findChecks: for every path the specification says exists in a module tree: Find of
+// the absolute prefixed path must return an entry of the right kind at that path, and
+// the same entry whatever the start: the root of the module, the root of every
+// importing module (under that module's prefix for it), and nodes anywhere in any tree
+// - in particular nodes grafted by another module, from which a prefix means what the
+// module that WROTE the start node imports under it.  Relative ../ paths between nodes
+// up to depth 3 must return the destination, and a path with an absent step nothing.
 func findChecks(c *Case, ms *yang.Modules, obs map[string]map[string]*Observed) string {
-	for _, tm := range c.Prog.names() {
+	names := c.Prog.names()
+	nsToMod := map[string]string{}
+	for _, n := range names {
+		if c.Prog.Mods[n].Kind == "module" {
+			nsToMod[c.Prog.Mods[n].Ns] = n
+		}
+	}
+	// the prefix module w uses for module tm ("" = cannot name it)
+	prefixFor := func(w, tm string) string {
+		m := c.Prog.Mods[w]
+		if w == tm {
+			return m.Pfx
+		}
+		var ps []string
+		for p, t := range m.Imports {
+			if t == tm {
+				ps = append(ps, p)
+			}
+		}
+		sort.Strings(ps)
+		if len(ps) > 0 {
+			return ps[0]
+		}
+		return ""
+	}
+	type start struct {
+		what   string
+		e      *yang.Entry
+		writer string
+	}
+	var starts []start
+	for _, n := range names {
+		if c.Prog.Mods[n].Kind != "module" {
+			continue
+		}
+		starts = append(starts, start{n + ":root", yang.ToEntry(ms.Modules[n]), n})
+		var ks []string
+		for k := range obs[n] {
+			ks = append(ks, k)
+		}
+		sort.Strings(ks)
+		deep, grafted := 0, 0
+		for _, k := range ks {
+			o := obs[n][k]
+			w := nsToMod[o.Ns]
+			if w == "" || o.Implicit {
+				continue
+			}
+			if w != n && grafted < 3 { // written by another module
+				grafted++
+				starts = append(starts, start{n + ":/" + k + " (written by " + w + ")", o.Entry, w})
+			} else if w == n && len(o.P) >= 2 && deep < 1 {
+				deep++
+				starts = append(starts, start{n + ":/" + k, o.Entry, w})
+			}
+		}
+	}
+	for _, tm := range names {
 		if c.Prog.Mods[tm].Kind != "module" {
 			continue
 		}
 		nodes := obs[tm]
-		starts := map[string]*yang.Entry{}
-		for _, n := range c.Prog.names() {
-			m := c.Prog.Mods[n]
-			if m.Kind != "module" {
-				continue
-			}
-			pfx := ""
-			if n == tm {
-				pfx = m.Pfx
-			}
-			for p, t := range m.Imports {
-				if t == tm {
-					pfx = p
+		for _, f := range c.Flat[tm] {
+			p := strings.Join(f.P, "/")
+			var found *yang.Entry
+			for _, st := range starts {
+				pfx := prefixFor(st.writer, tm)
+				if pfx == "" {
+					continue
 				}
-			}
-			if pfx == "" {
-				continue
-			}
-			starts[n+":root\x00"+pfx] = yang.ToEntry(ms.Modules[n])
-			// a deep start in the same module
-			var deep *yang.Entry
-			var dk string
-			for k, o := range obs[n] {
-				if len(o.P) >= 2 && (deep == nil || k < dk) {
-					deep, dk = o.Entry, k
+				abs := "/" + pfx + ":" + strings.ReplaceAll(p, "/", "/"+pfx+":")
+				g := st.e.Find(abs)
+				if g == nil {
+					return fmt.Sprintf("existing-node-not-found\x00Find(%q) from %s returns nothing, the specification has a %s there", abs, st.what, f.Kind)
 				}
-			}
-			if deep != nil {
-				starts[n+":"+dk+"\x00"+pfx] = deep
-			}
-		}
-		var paths []string
-		for _, f := range c.Flat[tm] { // the paths the specification says exist
-			if p := strings.Join(f.P, "/"); nodes[p] != nil {
-				paths = append(paths, p)
-			}
-		}
-		sort.Strings(paths)
-		for _, p := range paths {
-			want := nodes[p]
-			for sk, st := range starts {
-				parts := strings.SplitN(sk, "\x00", 2)
-				abs := "/" + parts[1] + ":" + strings.ReplaceAll(p, "/", "/"+parts[1]+":")
-				if g := st.Find(abs); g != want.Entry {
-					return fmt.Sprintf("absolute-lookup\x00Find(%q) from %s returns %s, the node at that path is %s", abs, parts[0], desc(g), desc(want.Entry))
+				if k := kindOf(g); k != f.Kind {
+					return fmt.Sprintf("wrong-node-found\x00Find(%q) from %s returns %s, the specification has a %s there", abs, st.what, desc(g), f.Kind)
 				}
-				for _, miss := range []string{abs + "/" + parts[1] + ":nosuchnode", strings.Replace(abs, ":"+want.P[len(want.P)-1], ":nosuchnode", 1) + "x"} {
-					if !strings.Contains(miss, "nosuchnode") {
-						continue
-					}
-					if g := st.Find(miss); g != nil {
-						return fmt.Sprintf("absent-step-found\x00Find(%q) from %s returns %s, the path names no node", miss, parts[0], desc(g))
+				if found != nil && g != found {
+					return fmt.Sprintf("lookup-depends-on-start\x00Find(%q) from %s returns %s, from another start it returns %s", abs, st.what, desc(g), desc(found))
+				}
+				found = g
+				if o := nodes[p]; o != nil && o.Entry != g {
+					return fmt.Sprintf("absolute-lookup\x00Find(%q) from %s returns %s, the node at that path is %s", abs, st.what, desc(g), desc(o.Entry))
+				}
+				miss := abs + "/" + pfx + ":nosuchnode"
+				if g := st.e.Find(miss); g != nil {
+					return fmt.Sprintf("absent-step-found\x00Find(%q) from %s returns %s, the path names no node", miss, st.what, desc(g))
+				}
+				if len(f.P) >= 1 {
+					sub := "/" + pfx + ":" + strings.Join(append(append([]string{}, f.P[:len(f.P)-1]...), "nosuchnode"), "/"+pfx+":") + "/" + pfx + ":" + f.P[len(f.P)-1]
+					if g := st.e.Find(sub); g != nil {
+						return fmt.Sprintf("absent-step-found\x00Find(%q) from %s returns %s, the path names no node", sub, st.what, desc(g))
 					}
 				}
 			}
-			// relative: from every other node of the same tree, up to the root and down again
-			for q, from := range nodes {
+		}
+		// relative: from every node of the same tree up to the root and down again
+		for q, from := range nodes {
+			for p, want := range nodes {
 				if len(from.P) > 3 || len(want.P) > 3 {
 					continue
 				}
 				rel := strings.Repeat("../", len(from.P)) + p
-				// climbing out of an implicit case or rpc input is ordinary parent walking
 				if g := from.Entry.Find(rel); g != want.Entry {
 					return fmt.Sprintf("relative-lookup\x00Find(%q) from %s returns %s, the destination is %s", rel, q, desc(g), desc(want.Entry))
 				}
@@ -403,7 +453,7 @@ func init() {
 		r.Rule = "A: every program of the augment space (base module with container, list, choice/case with a shorthand member, uses copies, rpc with and without written input/output, notification; augmenting modules b and c with one augment each, targets drawn from base paths, paths another augment creates (chains), an absent path and a leaf, payloads leaf / container with config false / uses of the augmenter's grouping / two siblings / a name that collides), explored by TLC through every order of the augment loop's work list; every distinct outcome replayed: Process error presence, every path, kind and Namespace() compared. Non-trivial = every case (each has two augments)."
 		r.Exhaustive = true
 		r.Assumptions = []string{"implicit-case namespace, a wrong prefix on a non-first step and uses-augment are outside the claim", "the real map iteration order is whatever the Go runtime picks in the run (orders are exhaustive in the model only)"}
-		cfgs := []string{"aug_quick"}
+		cfgs := tierCfgs(r, []string{"aug_quick", "aug_pair", "aug_sub_quick", "split"}, []string{"aug_sub", "aug_two"})
 		designRun(r, "C07", cfgs, nil)
 		directionB(r, "C07", false)
 	}
@@ -439,7 +489,7 @@ func init() {
 		r.Exhaustive = true
 		r.Assumptions = []string{"error texts are not compared, only presence", "bounded program spaces"}
 		col := core.NewCollector()
-		designRun(r, "C04", tierCfgs(r, []string{"aug_quick", "uses_quick"}, []string{"aug_sub", "aug_two", "cfg", "uses"}), col)
+		designRun(r, "C04", tierCfgs(r, []string{"aug_quick", "uses_quick", "aug_pair", "aug_sub_quick"}, []string{"aug_sub", "aug_two", "cfg", "uses", "split"}), col)
 		r.ValidateTrace("schema", col, core.TLCOpts{Module: "SchemaTrace", Cfg: "SchemaTrace.cfg", Timeout: 0, HeapGB: 8})
 		directionB(r, "C04", true)
 	}
@@ -454,14 +504,16 @@ func init() {
 		r.Rule = "A: the uses space: a grouping g1 of four shapes (container with default leaf and nested uses; list with min-elements and a leaf-list with defaults; config-false container with choice/case and shorthand member; container with an inner grouping shadowing the outer g2) defined in the imported module, in its submodule or in the using module, used at two sites (container, list, rpc input, notification, through another grouping, inside a case), names inside it (g2) shadowed by a same-named grouping of the user; with one later mutation of the first instance (augment, deviate not-supported, deviate add config) from a third module; every path, kind, attribute and Namespace() of every instance compared with the inlined-copy semantics of Schema.tla. Non-trivial = every case."
 		r.Exhaustive = true
 		r.Assumptions = []string{"refine and uses-augment are outside the claim", "a submodule referring to its owner's groupings is not generated (RFC 6020 and 7950 differ)"}
-		designRun(r, "C06", tierCfgs(r, []string{"uses_quick"}, []string{"uses"}), nil)
-		directionB(r, "C06", false)
+		col := core.NewCollector()
+		designRun(r, "C06", tierCfgs(r, []string{"uses_quick"}, []string{"uses"}), col)
+		r.ValidateTrace("schema", col, core.TLCOpts{Module: "SchemaTrace", Cfg: "SchemaTrace.cfg", Timeout: 0, HeapGB: 8})
+		directionB(r, "C06", true)
 	}
 	core.Checks["C17"] = func(r *core.Run) {
 		r.Rule = "A: on every clean outcome of the augment space (and the uses / config spaces in the thorough tier): for every node of every module tree, Find of its absolute prefixed path from the module's own root, from the root of every importing module (with that module's prefix) and from a deep node of each, compared by pointer identity; the relative ../ path between every pair of nodes up to depth 3; and every absolute path with an absent step appended or substituted must return nothing. Non-trivial = every case."
 		r.Exhaustive = true
 		r.Assumptions = []string{"starts at rpc input/output that Find creates on demand are covered by C04"}
-		designRun(r, "C17", tierCfgs(r, []string{"aug_quick"}, []string{"uses", "cfg", "aug_sub"}), nil)
+		designRun(r, "C17", tierCfgs(r, []string{"aug_quick", "aug_pair", "split"}, []string{"uses", "cfg", "aug_sub"}), nil)
 	}
 }
 
@@ -550,7 +602,7 @@ func init() {
 		r.Rule = "A: the deviation spaces: 10 targets (leaf with / without default, mandatory leaf, leaf-list with bounds, leaf-list with defaults, list with bounds, container, a leaf inside a uses copy, a leaf grafted by an augment of another module, an absent node) x 24 deviate statements (not-supported under both option settings, an unknown kind, add / replace / delete of config, default, mandatory, min/max-elements, units, type incl. an unresolvable type and a three-property replace) restricted to the combinations the statement pins down; every ordered pair of deviate statements in one deviation on four targets; two deviations in one module and in two modules; outcome per RFC 7950 7.20.3 in written order by Schema.tla, Frame invariant by TLC; every path, kind and attribute of the real trees compared, and the same modules are processed without the deviating modules to compare every untargeted node. Non-trivial = every case."
 		r.Exhaustive = true
 		r.Assumptions = []string{"must / unique deviations, delete default on a leaf-list, replace default where none exists, delete of an implicit element bound are outside the claim (DESIGN.md D.1)"}
-		designRun(r, "C08", tierCfgs(r, []string{"dev1", "dev2", "dev3"}, nil), nil)
+		designRun(r, "C08", tierCfgs(r, []string{"dev1", "dev2", "dev3", "dev_triples"}, nil), nil)
 	}
 }
 
